@@ -169,9 +169,19 @@ def setup(n):
         subprocess.run(['rsync', '-a', '--exclude', '.git', '--exclude', 'evidence/replay', '--exclude', '.cache/run', '--exclude', '.cache/cov', '--exclude', '.cache/covtarget', '/verif/', f'{w}/verif/'], check=True)
         subprocess.run(['git', '-C', REPO, 'worktree', 'add', '--detach', f'{w}/repo', 'HEAD'], check=True, stdout=subprocess.DEVNULL)
         ct = f'{w}/verif/harness/Cargo.toml'
-        open(ct, 'w').write(open(ct).read().replace('"/repo/', f'"{w}/repo/'))
+        txt = open(ct).read().replace('"/repo/', f'"{w}/repo/')      # read BEFORE opening for writing
+        assert '[package]' in txt
+        open(ct, 'w').write(txt)
         cc = f'{w}/verif/harness/.cargo/config.toml'
-        open(cc, 'w').write(open(cc).read().replace('/verif/.cache/target', f'{w}/verif/.cache/target'))
+        txt = open(cc).read().replace('/verif/.cache/target', f'{w}/verif/.cache/target')
+        assert 'target-dir' in txt
+        open(cc, 'w').write(txt)
+        subprocess.run(['cp', os.path.join(REPO, 'Cargo.lock'), f'{w}/repo/Cargo.lock'], check=True)
+        # the worker must be able to run a check on its unchanged copy: otherwise every later "detection" would be an artefact
+        env = dict(os.environ)
+        env.update({'VERIF_REPO': f'{w}/repo', 'CARGO_NET_OFFLINE': 'true'})
+        rc, out = sh([f'{w}/verif/bin/check', 'C18', '--tier', 'quick'], cwd=f'{w}/verif', env=env, timeout=3600)
+        assert rc == 0 and 'VIOLATION' not in out, 'worker self-test failed:\n' + out[-2000:]
         print('worker', k, 'ready')
 
 
@@ -179,10 +189,11 @@ def run(k, n, stage):
     w = f'/tmp/mw{k}'
     env = dict(os.environ)
     env.update({'VERIF_REPO': f'{w}/repo', 'CARGO_NET_OFFLINE': 'true', 'CARGO_BUILD_JOBS': '4'})
-    if stage == 1:
+    if stage in (1, 3):
         env['VERIF_NO_ESCALATE'] = '1'
     muts = [json.loads(l) for l in open(os.path.join(OUT, 'mutants.jsonl'))]
-    if stage == 2:
+    if stage in (2, 3):
+        # stage 2: thorough volumes for what stage 1 left undetected; stage 3: quick volumes for a given list (re-check)
         todo = {json.loads(l)['id'] for l in open(os.path.join(OUT, 'stage2.jsonl'))}
         muts = [m for m in muts if m['id'] in todo]
     mine = [m for i, m in enumerate(muts) if i % n == k]
@@ -223,9 +234,15 @@ def run(k, n, stage):
                     except Exception:
                         pass
             r['checks'][pid] = {'rc': rc, 'violation': (v[0][:160] if v else ''), 'detail': detail}
-            if rc != 0 and stage == 1:
+            if 'build-or-translation-failure' in detail or 'correspondence-run-failure' in detail or (rc != 0 and not v):
+                # the check could not even run against this mutant (or the worker is broken): NOT a detection
+                r['checks'][pid]['infra'] = True
+                if 'error[E' not in out and 'cargo build of the harness' not in out:
+                    pass
+            if rc != 0 and stage == 1 and not r['checks'][pid].get('infra'):
                 break            # one detection is enough in the sweep
-        r['detected'] = any(c['rc'] != 0 for c in r['checks'].values())
+        r['detected'] = any(c['rc'] != 0 and not c.get('infra') for c in r['checks'].values())
+        r['infra'] = any(c.get('infra') for c in r['checks'].values())
         r['secs'] = round(time.time() - t0, 1)
         open(res_path, 'a').write(json.dumps(r) + '\n')
     subprocess.run(['git', '-C', f'{w}/repo', 'checkout', '--', '.'])
@@ -243,7 +260,7 @@ def report():
     tot = len(res)
     by = {}
     for d in res.values():
-        k = d['suite'] if d['suite'] != 'survived' else ('detected' if d.get('detected') else 'UNDETECTED')
+        k = d['suite'] if d['suite'] != 'survived' else ('detected' if d.get('detected') else ('INFRA-ERROR' if d.get('infra') else 'UNDETECTED'))
         by[k] = by.get(k, 0) + 1
     print(tot, 'evaluated:', by)
     for d in sorted(res.values(), key=lambda x: (x['file'], x['line'])):
